@@ -6,6 +6,7 @@
 #    `all`), reverts /repo;
 # 3. stores patch, demo and meta under /verif/seeded/<name>/.
 set -u
+DEMO_TEST="${DEMO_TEST:-}"
 export GOFLAGS=-mod=mod GOPROXY=off GOSUMDB=off GOTOOLCHAIN=local; unset GOWORK
 WT="$1"; PROP="$2"; VAR="$3"; NAME="$4"
 S="$WT/SEEDED/$VAR"
@@ -22,9 +23,19 @@ for t in "$S"/demo/*_test.go; do [ -f "$t" ] && echo "   (test file demo: $t —
 TESTS=$(go test -count=1 ./... 2>&1 | grep -v "no test files" | grep -v "^ok" | head -5)
 [ -z "$TESTS" ] && TESTS=pass
 WITH=na; WITHOUT=na
-if [ -n "$DEMO" ]; then bash "$DEMO" >/tmp/demo-with.txt 2>&1; WITH=$?; fi
+# DEMO_TEST="<file under demo/>:<package dir>:<test name>": a Go test file that is copied into the package for the run
+rundemo() {
+  if [ -n "${DEMO_TEST:-}" ]; then
+    IFS=: read -r tf pkg tn <<<"$DEMO_TEST"
+    cp "$S/demo/$tf" "$WT/$pkg/zz_seeded_demo_test.go"
+    (cd "$WT" && go test -count=1 -run "$tn" "./$pkg") ; rc=$?
+    rm -f "$WT/$pkg/zz_seeded_demo_test.go"; return $rc
+  fi
+  bash "$DEMO"
+}
+if [ -n "$DEMO$DEMO_TEST" ]; then rundemo >/tmp/demo-with.txt 2>&1; WITH=$?; fi
 git checkout -q -- .
-if [ -n "$DEMO" ]; then bash "$DEMO" >/tmp/demo-without.txt 2>&1; WITHOUT=$?; fi
+if [ -n "$DEMO$DEMO_TEST" ]; then rundemo >/tmp/demo-without.txt 2>&1; WITHOUT=$?; fi
 echo "   build=$BUILD tests=$TESTS demo_with_change_rc=$WITH demo_without_change_rc=$WITHOUT"
 echo "== run /verif checks against it"
 cd /repo && git apply "$S/patch.diff" || { echo "does not apply to /repo"; exit 3; }
